@@ -64,6 +64,8 @@ class CheckBase(object):  # pylint: disable=too-many-instance-attributes
         self.shard = shard
         self.nshards = nshards
         self.rng = random.Random('%s/%s/%s/%s' % (self.ID, seed, shard, nshards))
+        # plan_rng is shard-independent: every shard enumerates the *same* case sequence and keeps its share
+        self.plan_rng = random.Random('%s/%s/plan' % (self.ID, seed))
         self.stats = collections.Counter()
         self.evaluations = 0
         self.digests = set()
